@@ -107,6 +107,34 @@ CHECKS = {
             "DESIGN.md §3 C18, §9",
             "CPU-limit overruns are recorded, not counted as refusals; class membership is conservative (path-sensitive finiteness excluded).",
             "exhaustive enumeration of in-class programs; acceptance + explicit-state comparison"),
+    "C08": ("exploration",
+            "Exhaustive grid: 10 families x parameter tuples x orders k <= 6 x t-grid: moments against closed textbook formulas AND 50-digit "
+            "quadrature, support, discreteness, cf/mgf against numeric integrals, Taylor coefficients by Cauchy integrals, mgf existence "
+            "domain; DistTransformer rewriting against the original draw's moments for each value of the parameter variable.",
+            "DESIGN.md §3 C08",
+            "Input-grid enumeration (no transitions); parameters outside the grid are not covered; mpmath quadrature trusted.",
+            "exhaustive parameter-grid enumeration against independent densities"),
+    "C13": ("exploration",
+            "Exhaustive grid: families x parameters x all exponent triples (a,b,c) / pairs (a,c) x exact/rounded mode against 50-digit "
+            "quadrature of the defining expectation; Sin*Exp mixing and non-existent exponential moments must be rejected; constants; a "
+            "program family with iid increments built from Sin/Cos/Exp/Id of a draw, a reference to it, or a constant.",
+            "DESIGN.md §3 C13",
+            "Input-grid enumeration; program family restricted to iid increments so that E(x_n), E(x_n^2) follow from m1, m2.",
+            "exhaustive grid enumeration against numeric integrals"),
+    "C19": ("exploration",
+            "Every applicable instance of 8 meaning-preserving rewrites of the seed texts (analysed and compared with the model of the "
+            "original), precedence probes, every single-token deletion / duplication / substitution of the seeds (accept <=> independent "
+            "recogniser accepts; same chain when both accept), all probability vectors of length <= 3 over 7 values.",
+            "DESIGN.md §3 C19",
+            "Reference recogniser reads syntax.lark literally; keyword-as-name texts (contextual lexing) are not judged.",
+            "exhaustive single-edit neighbourhoods of seed texts against an independent parser + model"),
+    "C20": ("model_checking",
+            "All operation histories of length <= 2 (3 thorough) over an 11-operation alphabet colliding on every process-global state, each "
+            "history in one fresh interpreter: the last operation's canonical result must equal its fresh-process result; all goal orders; "
+            "hash seeds 0..3 (0..11).",
+            "DESIGN.md §3 C20",
+            "Results compared up to generated names; settings module reset before each operation (an operation states its settings).",
+            "exhaustive exploration of operation histories (sequential model checking of process-global state)"),
 }
 
 NOT_YET = {}
